@@ -8,6 +8,10 @@ LEVEL = 'proof'
 
 def run(rep):
     enginep.engine_deductive(rep, enginep.GEN_FUNS + ['engine.YP.register_function', 'engine.YP.evaluate_bounded'], heap_lemmas=False)
+    # "a Python generator function that unifies its arguments": what such a function and a compiled clause have in common is the
+    # unification family - verified against su (atoms equal by name whoever made them, C02's contracts)
+    from .common import UNIFY_FAMILY
+    fw.deductive(rep, [t for t in UNIFY_FAMILY if 'get_value' not in t], ['engine_terms'], ['terms.smt2'], timeout=25 if rep.tier == 'quick' else 60)
     syntactic.no_try_between_predicate_and_consumer(rep)
     syntactic.semidet_yield_constant(rep)
     templates.discipline_obligations(rep)
